@@ -43,6 +43,9 @@ for d in sorted((V / 'seeded').iterdir()):
         continue
     meta = json.loads((d / 'meta.json').read_text())
     r = res.get(d.name, {})
+    if meta.get('superseded_by'):
+        srows.append('| %s | %s | (patch no longer applies to /repo HEAD) | superseded by %s | | |' % (d.name, meta.get('property'), meta['superseded_by']))
+        continue
     by = ', '.join(p for p, c in r.get('checks', {}).items() if c['exit'] == 1)
     need = str(meta.get('needs_to_manifest', ''))[:160].replace('|', '/').replace('\n', ' ')
     srows.append('| %s | %s | %s | %s | %s | %s |' % (d.name, meta.get('property'), need,
